@@ -140,11 +140,24 @@ func (c07) Run(c *mon.Ctx, i int) {
 			max = 300
 		}
 		d := gen.RandomData(r, max)
+		if !small && r.Chance(1, 2) {
+			// word-salad text over 64 KiB: short codes, packed table entries
+			// everywhere, several history roll-overs
+			d = gen.Data{Desc: "word-salad", B: wordSalad(r, r.Range(70000, 200000))}
+		}
+		if i%16 == 6 {
+			// ten or so roll-overs over a four- or five-letter alphabet
+			members = 1
+			d = gen.Data{Desc: "word-salad", B: wordSaladAlpha(r, r.Range(200000, 300000), r.Pick(3, 4, 4, 5))}
+		}
 		api := impl.Stdlib
 		if r.Bool() {
 			api = c.API
 		}
 		lvl := allLevels[r.Intn(len(allLevels))]
+		if d.Desc == "word-salad" {
+			lvl = r.Pick(6, 6, 9, 3, 2, 1)
+		}
 		var b bytes.Buffer
 		if kind == "gzip" && r.Chance(1, 3) {
 			// hand-built member: no Go writer ever sets FHCRC (or FTEXT, XFL),
@@ -232,6 +245,36 @@ func (c07) Run(c *mon.Ctx, i int) {
 			}
 			if pos >= 0 && pos < len(cont) {
 				cs = append(cs, flip(pos, uint(r.Intn(8))))
+			}
+		}
+		// cuts around the compressed positions at which the output crosses 64 KiB
+		// and every further 32 KiB (single-member containers)
+		if len(memberEnds) == 1 && len(payload) > 65536 {
+			off := 10
+			if kind == "zlib" {
+				off = 2
+			}
+			var marks []int
+			for m := 65536; m < len(payload); m += 32768 {
+				marks = append(marks, m)
+			}
+			var raw []byte
+			if kind == "gzip" {
+				raw, _ = gzipDeflatePart(cont)
+				off = len(cont) - 8 - len(raw)
+			} else {
+				raw, _ = zlibDeflatePart(cont)
+			}
+			if raw != nil {
+				res := refinf.Inflate(raw, refinf.Options{Marks: marks, KeepBlocks: 1})
+				for zi, mb := range res.MarkBits {
+					for t := off + int(mb/8) - 12; t <= off+int(mb/8)+40+20*zi; t++ {
+						if t > 0 && t < len(cont) {
+							cs = append(cs, corruption{b: cont[:t], what: fmt.Sprintf("truncate@%d (roll-over zone)", t), trunc: t})
+						}
+					}
+				}
+				c.Count("containers-with-roll-over-zone-truncations", 1)
 			}
 		}
 		for k := 0; k < 40; k++ {
